@@ -1,7 +1,11 @@
 //! C02 / C10 / C11: scripted sessions on the real `des::runtime::Runtime`.
 //!
 //! Script:
-//!   case <id> n=<buckets> t=<bucket ns> start=<ns>
+//!   case <id> n=<buckets> t=<bucket ns> start=<ns> [unit=<k>]
+//!       unit=<k>: every time of the script (t, start, delays, absolute times, limits) counts units of k ns; the
+//!       harness multiplies by k towards the implementation and divides what it reads back, so the transcript (and
+//!       the model, whose bucket arithmetic is invariant under scaling) is that of the unscaled case. Used to move
+//!       whole sessions beyond 2^64 ns (584 years) of simulated time.
 //!   builder max_itr <n> | builder max_time <ns> | builder limit <expr>      expr = none | ec:N | st:N | and(A,B) | or(A,B)
 //!   node <id> <act>*            act = +<delay>:<child> | -<delay>:<child>   (handler of node <id> calls add_event at now±delay)
 //!   add <abs ns> <node>         external add_event (before start, or while paused)
@@ -40,12 +44,21 @@ impl Application for App {
     type Lifecycle = ();
 }
 
-fn st(ns: u64) -> SimTime {
-    SimTime::from_duration(Duration::from_nanos(ns))
+thread_local! {
+    static UNIT: std::cell::Cell<u128> = const { std::cell::Cell::new(1) };
+}
+
+fn dur(units: u64) -> Duration {
+    let ns = units as u128 * UNIT.with(|u| u.get());
+    Duration::new((ns / 1_000_000_000) as u64, (ns % 1_000_000_000) as u32)
+}
+
+fn st(units: u64) -> SimTime {
+    SimTime::from_duration(dur(units))
 }
 
 fn ns(t: SimTime) -> u128 {
-    t.as_nanos()
+    t.as_nanos() / UNIT.with(|u| u.get())
 }
 
 impl Event<App> for Ev {
@@ -114,8 +127,10 @@ pub fn exec(input: &str) -> String {
         let n: usize = hval(&header, "n").and_then(|v| v.parse().ok()).unwrap_or(1028);
         let t: u64 = hval(&header, "t").and_then(|v| v.parse().ok()).unwrap_or(2_500_000);
         let start: u64 = hval(&header, "start").and_then(|v| v.parse().ok()).unwrap_or(0);
+        let unit: u128 = hval(&header, "unit").and_then(|v| v.parse().ok()).unwrap_or(1);
+        UNIT.with(|u| u.set(unit.max(1)));
         writeln!(out, "{header}").unwrap();
-        let mut builder = Builder::seeded(1).quiet().start_time(st(start)).cqueue_options(n, Duration::from_nanos(t));
+        let mut builder = Builder::seeded(1).quiet().start_time(st(start)).cqueue_options(n, dur(t));
         let mut prog: Vec<Vec<Act>> = Vec::new();
         let mut cmds: Vec<String> = Vec::new();
         for line in &body {
@@ -313,10 +328,19 @@ pub fn gen_for(which: u32, seed: u64, count: usize, thorough: bool) -> String {
     let mut out = String::new();
     for k in 0..count {
         let n = *r.pick(&NS);
-        let t = *r.pick(&TS);
+        let mut t = *r.pick(&TS);
         // keep (start / t) small: the real scan loop is O(gap / t)
-        let start = if r.chance(1, 2) { 0 } else { *r.pick(&[1u64, 5, 1_000, 20_000]) * r.range(1, 3) * if r.chance(1, 2) { t } else { 1 } };
-        writeln!(out, "case {k} n={n} t={t} start={start}").unwrap();
+        let mut start = if r.chance(1, 2) { 0 } else { *r.pick(&[1u64, 5, 1_000, 20_000]) * r.range(1, 3) * if r.chance(1, 2) { t } else { 1 } };
+        // one session in eight lives around / beyond 2^64 ns (584.5 years) of simulated time: 1 unit = 1 s,
+        // buckets of 2.5e6 s, start just below the 64-bit nanosecond boundary (the run crosses it) or beyond it
+        let far = r.chance(1, 8);
+        if far {
+            t = 2_500_000;
+            start = *r.pick(&[7_000u64, 7_300, 7_378, 7_379, 8_000, 20_000, 40_000]) * t + r.below(3);
+            writeln!(out, "case {k} n={n} t={t} start={start} unit=1000000000").unwrap();
+        } else {
+            writeln!(out, "case {k} n={n} t={t} start={start}").unwrap();
+        }
         let f = forest(&mut r, n, t, start, thorough);
         let total = f.nodes as u64 * 2;
         if which == 11 || (which == 10 && r.chance(1, 6)) {
